@@ -166,10 +166,10 @@ func (q *Query) SMT() string {
 		}
 		fmt.Fprintf(&b, "(declare-fun %s (%s) %s)\n", k, strings.Join(as, " "), sig.ret)
 	}
-	if len(c.bound) > 0 && c.ufs["f!ssub"] {
+	if (len(c.bound) > 0 || c.hasSkolem()) && c.ufs["f!ssub"] {
 		b.WriteString("(assert (forall ((s Str) (a Int) (b Int) (i Int)) (! (=> (and (<= 0 a) (<= a b) (<= b (slen s)) (<= 0 i) (< i (- b a))) (= (sat (f!ssub s a b) i) (sat s (+ a i)))) :pattern ((sat (f!ssub s a b) i)))))\n")
 	}
-	if len(c.bound) > 0 && c.ufs["f!sconcat"] {
+	if (len(c.bound) > 0 || c.hasSkolem()) && c.ufs["f!sconcat"] {
 		b.WriteString("(assert (forall ((s Str) (t Str) (i Int)) (! (=> (and (<= 0 i) (< i (+ (slen s) (slen t)))) (= (sat (f!sconcat s t) i) (ite (< i (slen s)) (sat s i) (sat t (- i (slen s)))))) :pattern ((sat (f!sconcat s t) i)))))\n")
 	}
 	for _, a := range q.Axioms {
